@@ -8,8 +8,8 @@ import hashlib
 from . import env
 
 KF_PATH = os.path.join(env.VERIF, "known_findings.json")
-EVIDENCE_DIR = os.path.join(env.VERIF, "evidence")
-REPLAY_DIR = os.path.join(env.VERIF, "replays")
+EVIDENCE_DIR = os.environ.get("PVMON_EVIDENCE_DIR") or os.path.join(env.VERIF, "evidence")
+REPLAY_DIR = os.environ.get("PVMON_REPLAY_DIR") or os.path.join(env.VERIF, "replays")
 
 _KF = None
 
